@@ -220,7 +220,7 @@ Definition step (s : state) (l : label) : option state :=
     | PJoin =>
       let s := ev (HJoinReq (mid s)) s in
       Some (match ja with
-            | JErr e => fail_ng e (set_mid None s)          (* joinGroup returns "" on error *)
+            | JErr e => fail_ng e s                         (* joinGroup returns the id it was given *)
             | JOk m (LeaderFail e) => fail_ng e (set_mid (Some m) s)
             | JOk m _ => set_pc PSync (set_mid (Some m) s)
             end)
@@ -491,6 +491,14 @@ Definition C15_holds (h : list event) : bool :=
 
 (* ---- the former F5 scenario, kept as a regression: join ok as member 1, SyncGroup answers
    RebalanceInProgress, nobody calls Next, Close; run must now leave before it exits ---- *)
+(* regression of the second fixed defect: generation 0 of member 1 ends on a heartbeat answer
+   RebalanceInProgress, the re-join is lost (dropped connection): run must leave with id 1
+   before it backs off (here Close arrives while the error is offered) *)
+Definition joinerr_scenario : list label :=
+  [LCoord AOk; LJoin (JOk 1 NotLeader); LSync AOk; LFetch AOk; LStartHB; LNextCall 0; LNextGen 0;
+   LHbTick 0 (AErr ERebalance); LFnHandler 0; LWaitGenDone; LGenCloseLock;
+   LCoord AOk; LJoin (JErr EDropped); LLeaveCoord AOk; LLeaveReq AOk;
+   LCloseCall 0; LOfferAbort; LCloseRet 0].
 Definition f5_scenario : list label :=
   [LCoord AOk; LJoin (JOk 1 NotLeader); LSync (AErr ERebalance); LCloseCall 0; LOfferAbort;
    LLeaveCoord AOk; LLeaveReq AOk; LCloseRet 0].
